@@ -1,7 +1,11 @@
 """C15 - the Kubernetes registry converges regardless of event arrival order.
 
-Proof: lean/IstioModel/C15/Theorems.lean over lean/IstioModel/C15/Model.lean (exact model of the
-controller's caches, of the informer stores and of the event queue).
+Proof: lean/IstioModel/C15/{Theorems,PodCache,Derive,ColdStart}.lean over lean/IstioModel/C15/Model.lean
+(exact model of the controller's caches, of the informer stores and of the event queue).  The theorems cover
+(a) every history handled write by write to quiescence, in any interleaving, whose steps satisfy GoodStep, and
+(b) the cold start (all stores filled before the first handler runs) in any event order with Services before
+EndpointSlices.  Other stores-ahead windows (hold/release) are executed against the model and the real
+controller, not proved.
 Tie: T-diff, stream `order` - a REAL controller on kube.NewFakeClient is fed an object history in
 one interleaving (queue blocked / event awaited / queue drained through verif hooks, no sleeps) and
 prints its caches and its EndpointIndex shard after every step; the Lean model runs on the same
@@ -13,7 +17,8 @@ import os
 
 # obligations = the property theorems and the kernel-evaluated examples/witnesses; the handler lemmas they rest on
 # (Inv.lean, Sync.lean, PodEvents.lean, Lemmas.lean) are checked with them (axiom audit is transitive)
-THEOREMS = ["IstioModel.C15.Theorems", "IstioModel.C15.Derive", "IstioModel.C15.Examples"]
+THEOREMS = ["IstioModel.C15.Theorems", "IstioModel.C15.PodCache", "IstioModel.C15.Derive", "IstioModel.C15.ColdStart",
+            "IstioModel.C15.Examples"]
 
 # Genuine order dependences of the pinned controller that are reproduced exactly by the model and are
 # not repaired (see notes/C15.md, "Findings").  The coordinator lists them in known-findings.json; until
@@ -142,20 +147,34 @@ def theorem_coverage(ctx, ops_path):
     for c, v in zip(cases, verdicts):
         f = dict(t.split("=", 1) for t in v.split()[1:] if "=" in t)
         good, side, der = f.get("good"), f.get("side"), f.get("derive")
+        cold, coldder, nodes = f.get("cold"), f.get("coldderive"), f.get("nodes")
         ctx.count("theorem.cases")
         if good == "1":
-            ctx.count("theorem.in-class(all steps good)")
+            ctx.count("theorem.in-class(all steps good, nothing stale at the end)")
+        elif good == "s":
+            ctx.count("theorem.in-class(all steps good, a slice still stale at the end)")
         elif good == "-":
-            ctx.count("theorem.outside-class(stores ahead)")
+            ctx.count("theorem.outside-class(stores ahead: hold/release window)")
         else:
             ctx.count("theorem.outside-class(some step not good)")
+        bad = None
         if good == "1" and side == "1":
             ctx.count("theorem.in-class-with-side-conditions")
             if der != "1":
-                ctx.violation("order:theorem-instance-contradicted",
-                              "a generated history satisfies every hypothesis of convergence_to_derive but the model's final "
-                              "view differs from derive (the Lean theorem and its compiled evaluation disagree)",
-                              {"stream": "order", "ops": c, "classify": v}, True)
+                bad = "convergence_to_derive"
+        if cold == "1":
+            ctx.count("theorem.cold-start-in-class")
+            if coldder != "1":
+                bad = "cold_start_eq_derive"
+        if good == "1" and side == "1" and cold == "1" and nodes == "1":
+            ctx.count("theorem.any_order_eq_cold_start-applies")
+            if f.get("coldagree") != "1":
+                bad = "any_order_eq_cold_start"
+        if bad:
+            ctx.violation("order:theorem-instance-contradicted",
+                          "a generated history satisfies every hypothesis of %s but its conclusion, evaluated with the compiled "
+                          "definitions, is false (the Lean theorem and its compiled evaluation disagree)" % bad,
+                          {"stream": "order", "ops": c, "classify": v}, True)
         if der == "1":
             ctx.count("theorem.view-equals-derive")
 
@@ -214,19 +233,27 @@ def run(ctx):
     have = {k.get("fingerprint") for k in ctx.known}
     # the committed known-findings.json is the only list of known findings (never extended at run time)
     ctx.rule = ("cases = random histories (2-30 writes) of Services (ClusterIP/headless/ExternalName), EndpointSlices (1-2 per "
-                "service, address moves), Pods (phases, readiness, IP assignment/reuse, label edits, deletion) and Nodes over a "
-                "small universe, in one interleaving, with hold/release windows in which the informer stores run ahead of the "
-                "handlers; distinct = hash of (ops, implementation outputs); non-trivial = at least one write")
+                "service: address moves, several addresses per endpoint, empty port lists, endpoints without targetRef at a pod's "
+                "address or elsewhere, conflicting duplicates across slices, service-label edits), Pods (Pending then bound to a "
+                "node, phases incl. Failed = eviction through the informer's field selector, readiness, IP assignment/reuse, label "
+                "edits, deletion before or after the slice drops the endpoint), Nodes and Namespaces (traffic-distribution "
+                "annotation) over a small universe, in one interleaving, with hold/release windows in which the informer stores "
+                "run ahead of the handlers; distinct = hash of (ops, implementation outputs); non-trivial = at least one write")
     ctx.assumptions = [
         "client-go informers deliver the events of one kind in order and the handler sees the latest object of the store",
         "one registry (one cluster); workload entries, MCS and multi-network gateways are not in the universe",
-        "the generator stays inside inputs on which the real result does not depend on Go map iteration order "
-        "(duplicate addresses across slices only with identical content; no two cached pods share an IP used by an "
-        "endpoint without targetRef)",
+        "the generator stays inside inputs on which the real result does not depend on Go map iteration order: no two cached "
+        "pods share an IP used by an endpoint without targetRef (getPodsByIP ranges over a set), and no Service is written "
+        "after a Pod write inside one hold window (recomputeServiceForPod ranges over the unsorted services.List and stops "
+        "at the first Service missing from servicesMap)",
+        "theorems: write-by-write histories (each event handled before the next write) in any interleaving, and the cold start "
+        "in any order with Services before EndpointSlices; other stores-ahead windows are executed, not proved",
     ]
     ctx.trusted.append("pilot/pkg/serviceregistry/kube/controller/zz_verif_c15.go and pkg/queue/zz_verif_c15.go "
                        "(verif-tagged: queue push / pending count, read-only cache snapshot)")
-    ctx.trusted.append("kube.NewFakeClient and client-go's fake tracker stand in for the API server (field selectors are not applied)")
+    ctx.trusted.append("kube.NewFakeClient and client-go's fake tracker stand in for the API server; the pod informer's field selector "
+                       "status.phase!=Failed is emulated by list/watch reactors in the harness (a pod turning Failed is delivered as "
+                       "a DELETE carrying the new object, as the API server's watch cache does)")
     ctx.lean_prove(THEOREMS)
     if not ctx.build_drv():
         return
@@ -276,19 +303,29 @@ def replay(ctx, path):
 
 MANIFEST = {
     "level_text": ("Lean 4 proof over an exact executable model of the kube registry controller's caches (PodCache podsByIP/ipByPods/"
-                   "needResync, endpointSliceCache, servicesMap, the EndpointIndex shard), of the informer stores (handlers read the "
-                   "latest object) and of the event queue: handlers_preserve_inv (every handler incl. needResync replays and "
-                   "recomputeServiceForPod keeps 'caches = function of the current objects'), convergence_any_order, "
-                   "convergence_to_derive (= the pure cold-start function derive), order_independent, needResync_no_leak, for all "
-                   "histories whose steps satisfy explicit decidable conditions; one witness theorem per order dependence the "
-                   "conditions exclude. The model is tied to /repo on every run by a line-by-line differential against a REAL "
-                   "controller on kube.NewFakeClient fed the same object history in the same interleaving, and the property itself "
-                   "(ordered run = cold start on the final objects) is evaluated on the real code for every case."),
+                   "needResync, endpointSliceCache incl. its name-ordered get, servicesMap, the EndpointIndex shard), of the informer "
+                   "stores (handlers read the latest object) and of the event queue. Proved for two classes of schedules: (1) every "
+                   "history handled write by write (each event and the replays it queues run before the next write), in ANY "
+                   "interleaving of the per-kind streams, whose steps satisfy the explicit decidable conditions GoodStep - "
+                   "handlers_preserve_inv, convergence_any_order (caches = handler-function of the current objects; podsByIP/ipByPods "
+                   "= the running ready pods of the store; a pod deleted before the slice controller drops its endpoint leaves that "
+                   "slice exempt until its next write), needResync_no_leak, convergence_to_derive (= the spec derive, exact endpoint "
+                   "list incl. conflicting duplicates), order_independent; (2) the cold start - all stores filled before the first "
+                   "handler runs, Add events in ANY order with Services before EndpointSlices - cold_start_inv, "
+                   "cold_start_eq_derive (derive is the model's own cold start), any_order_eq_cold_start (the property as stated: a "
+                   "good history shows what the cold start on its final objects shows). Windows in which the stores run ahead of "
+                   "the handlers in the middle of a history (hold/release) are NOT covered by a theorem; they are generated, run "
+                   "on model and real controller, and compared with the cold start by the oracle. One witness theorem per order "
+                   "dependence the conditions exclude. The model is tied to /repo on every run by a line-by-line differential "
+                   "against a REAL controller on kube.NewFakeClient fed the same object history in the same interleaving, and the "
+                   "property itself (ordered run = cold start on the final objects) is evaluated on the real code for every case."),
     "level_note": ("Trusted: Lean kernel + {propext, Classical.choice, Quot.sound}; the hand-written model (tied by differential testing); "
-                   "two verif-tagged accessor files; the fake Kubernetes client. One registry only; workload entries, MCS, multi-network "
-                   "not modelled. The real controller is NOT confluent on all histories: the order dependences found are listed as "
-                   "findings (one repaired by a fix: commit, the others known) and the convergence theorem carries explicit decidable "
-                   "hypotheses that exclude exactly those classes."),
+                   "two verif-tagged accessor files; the fake Kubernetes client with an emulated pod field selector. One registry only; "
+                   "workload entries, MCS, multi-network not modelled. The real controller is NOT confluent on all histories: the "
+                   "order dependences found are listed as findings (three repaired by fix: commits, the others known) and the "
+                   "convergence theorems carry explicit decidable hypotheses that exclude exactly those classes; a divergence of the "
+                   "real controller is accepted as known only when the Lean model reproduces it AND names, as its cause, a step of "
+                   "the history that violates the GoodStep clause of that class."),
     "technique": "Lean 4 theorems over an exact model of the controller caches + differential correspondence with the real controller + property oracle (ordered run vs cold start)",
     "design_ref": "DESIGN.md section 5 C15",
 }
